@@ -276,6 +276,26 @@ def deadStaticLocalRegion (ds : List Decl) : Bool :=
       | .staticLocal _ _ (some init) => init.any (fun j => match j with | .ref _ => true | _ => false)
       | _ => false))
 
+/-- the identifiers named by initializers of static locals inside functions that are defined but not emitted -/
+def deadStaticLocalRefs (ds : List Decl) : List Name :=
+  (fnNames ds).flatMap (fun f =>
+    if fnDefined (fnDecls ds f) && !fnEmitted ds f then
+      (fnBody (fnDecls ds f)).flatMap (fun i => match i with
+        | .staticLocal _ _ (some init) => initFnRefs init ++ initObjRefs init
+        | _ => [])
+    else [])
+
+/-- the unit defines `n`: an object with a definition, or a function whose code is emitted -/
+def definedHere (ds : List Decl) (n : Name) : Bool :=
+  ((objNames ds).contains n && objDefined (objDecls ds n)) || ((fnNames ds).contains n && fnEmitted ds n)
+
+/-- C15-static-local-in-dead-inline, exactly where it reaches the symbol table: such an initializer names something
+    that nothing emitted refers to and that the unit does not define - the always-emitted anonymous datum then adds an
+    undefined reference.  (Inside `deadStaticLocalRegion`; outside this narrower region the extra relocation is to a
+    symbol that is in the table anyway.) -/
+def deadStaticLocalVisibleRegion (ds : List Decl) : Bool :=
+  (deadStaticLocalRefs ds).any (fun n => !(usedNames ds).contains n && !definedHere ds n)
+
 /-- C15-tentative-composite-size: every tentative definition of the object leaves the array length open
     and only a declaration that is not a definition (`extern T x[N];`) gives it -/
 def compositeSizeRegion (ds : List Decl) : Bool :=
@@ -337,7 +357,7 @@ def symbolsSide (ds : List Decl) : Bool :=
 /-- all hypotheses of `C15_symbols_partial` in one predicate (`Props.C15.InScope ds && symbolsSide ds`, by `rfl` in
     Props/C15.lean); the driver prints it so that the check can tell which generated units the theorem covers -/
 def symbolsScope (ds : List Decl) : Bool :=
-  valid ds && !flagsFrozenDefRegion ds && !deadStaticLocalRegion ds && !compositeSizeRegion ds &&
+  valid ds && !flagsFrozenDefRegion ds && !deadStaticLocalVisibleRegion ds && !compositeSizeRegion ds &&
   !externInitAfterStaticRegion ds && symbolsSide ds
 
 /-! ### which address forms are valid for which entity (x86-64 psABI 3.5 code models, ELF TLS ABI)
